@@ -66,10 +66,10 @@ func (e *env) run(dir string, timeout time.Duration, extraEnv []string, name str
 func (e *env) goTool(dir string, args ...string) (string, error) {
 	for attempt := 0; ; attempt++ {
 		txt, err := e.run(dir, 10*time.Minute, nil, "go", args...)
-		if err == nil || attempt == 3 || !e.environmental(txt) {
+		if err == nil || attempt == 5 || !e.environmental(txt) {
 			return txt, err
 		}
-		time.Sleep(time.Duration(attempt+1) * 3 * time.Second)
+		time.Sleep([]time.Duration{5, 10, 20, 30, 30}[attempt] * time.Second) // dropping a 12 GB cache takes a while
 	}
 }
 
